@@ -342,7 +342,8 @@ def classify(case, msg):
 
 def _kf4_model(data, head):
     """C21-KF4: the text writer prints import / export names unescaped.  Signature: the text round trip (step f3) fails, a
-    name contains '"' or a backslash, and the very same module round-trips once those characters are replaced."""
+    name contains '"', a backslash or a control character (a newline gets the writer's indentation added), and the very
+    same module round-trips once those characters are replaced."""
     if head.get("step") != "f3":
         return False
     try:
@@ -353,8 +354,8 @@ def _kf4_model(data, head):
         for d in m.definitions:
             for attr in ("modname", "name") if isinstance(d, components.Import) else ("name",) if isinstance(d, components.Export) else ():
                 v = getattr(d, attr)
-                if isinstance(v, str) and ('"' in v or "\\" in v):
-                    setattr(d, attr, v.replace('"', "_").replace("\\", "_"))
+                if isinstance(v, str) and any(ch in '"\\' or ord(ch) < 32 or ord(ch) == 127 for ch in v):
+                    setattr(d, attr, "".join("_" if ch in '"\\' or ord(ch) < 32 or ord(ch) == 127 else ch for ch in v))
                     hit = True
         return hit and Module(m.to_string()).to_bytes() == m.to_bytes()
     except Exception:
@@ -517,6 +518,11 @@ def fuzz_binary(data, known_as_label=True):
     if kid and kid in core.open_finding_ids(PID) - set(os.environ.get("VERIF_ASSUME_FIXED", "").split(",")):
         return "known:" + kid
     raise fuzz.Failure(msg, bucket)
+
+
+def fuzz_binary_keep(label):
+    """corpus distillation between the rounds of a campaign: go on from binaries the reader accepts"""
+    return label.startswith(("accepted:", "known:"))
 
 
 def fuzz_seeds(seed, open_ids=()):
